@@ -392,6 +392,10 @@ impl<B: RealBook> Runner<B> {
         }
     }
 
+    pub fn apply_real_pub(b: &mut B, op: &Op) {
+        let _ = Self::apply_real(b, op, 0);
+    }
+
     /// Apply one operation to the real book (and forks), the reference and all enabled monitors.
     pub fn step(&mut self, op: &Op) -> Result<(), Failure> {
         let i = self.idx;
